@@ -350,9 +350,11 @@ carquet_status_t carquet_page_writer_add_values(
 
     switch (writer->type) {
         case CARQUET_PHYSICAL_BOOLEAN: {
+            /* Booleans are bit-packed: keep one byte per value until the page
+             * is finalized so that batches do not get byte-aligned separately. */
             const uint8_t* bools = (const uint8_t*)values;
-            status = carquet_encode_plain_boolean(bools, num_non_null,
-                                                   &writer->values_buffer);
+            status = carquet_buffer_append(&writer->values_buffer, bools,
+                                            (size_t)num_non_null);
             break;
         }
 
@@ -527,9 +529,19 @@ carquet_status_t carquet_page_writer_finalize(
         }
     }
 
-    carquet_buffer_append(&uncompressed,
-                           writer->values_buffer.data,
-                           writer->values_buffer.size);
+    if (writer->type == CARQUET_PHYSICAL_BOOLEAN) {
+        carquet_status_t bstatus = carquet_encode_plain_boolean(
+            writer->values_buffer.data, (int64_t)writer->values_buffer.size,
+            &uncompressed);
+        if (bstatus != CARQUET_OK) {
+            carquet_buffer_destroy(&uncompressed);
+            return bstatus;
+        }
+    } else {
+        carquet_buffer_append(&uncompressed,
+                               writer->values_buffer.data,
+                               writer->values_buffer.size);
+    }
 
     *uncompressed_size = (int32_t)uncompressed.size;
 
